@@ -222,8 +222,13 @@ def build():
              [lambda: mm.KMeansL1L2(n_clusters=3, n_init=2, random_state=0, norm="L1"),
               lambda: mm.KMeansL1L2(n_clusters=2, n_init=1, random_state=1, norm="L2", init="random"),
               lambda: mm.KMeansL1L2(n_clusters=4, n_init=2, random_state=2, norm="L1", max_iter=20, tol=1e-3),
-              lambda: mm.KMeansL1L2(n_clusters=3, n_init=1, random_state=4, norm="L1", init="random", max_iter=2)],
-             lambda r: {"X": reg_data(r)["X"]}, lambda r: {"X": reg_data(r, n=25, d=2)["X"]},
+              lambda: mm.KMeansL1L2(n_clusters=3, n_init=1, random_state=4, norm="L1", init="random", max_iter=2),
+              # explicit initial centres with the default n_init (10): the L1 path must not overwrite n_init
+              lambda: mm.KMeansL1L2(n_clusters=2, norm="L1", random_state=0,
+                                    init=numpy.array([[-1.0, 0.0, 0.5], [1.0, 0.5, -0.5]])),
+              lambda: mm.KMeansL1L2(n_clusters=2, norm="L2", random_state=0, n_init=3,
+                                    init=numpy.array([[-1.0, 0.0, 0.5], [1.0, 0.5, -0.5]]))],
+             lambda r: {"X": reg_data(r)["X"]}, lambda r: {"X": reg_data(r, n=25, d=3)["X"] * 2 + 1},
              methods=["predict", "transform"], rowwise=["predict", "transform"], det_rs=True,
              alts={"norm": [lambda: "L1", lambda: "L2"], "init": [lambda: "random", lambda: "k-means++"],
                    "algorithm": [lambda: "lloyd"], "n_init": [lambda: 1, lambda: 3]}))
@@ -240,7 +245,9 @@ def build():
     add(Spec("ClassifierAfterKMeans",
              [lambda: mm.ClassifierAfterKMeans(), lambda: mm.ClassifierAfterKMeans(c_n_clusters=3, e_C=0.5),
               lambda: mm.ClassifierAfterKMeans(estimator=LogisticRegression(C=2.0),
-                                               clus=KMeans(n_clusters=2, n_init=1, random_state=0))],
+                                               clus=KMeans(n_clusters=2, n_init=1, random_state=0)),
+              lambda: mm.ClassifierAfterKMeans(estimator=__import__("sklearn.svm", fromlist=["SVC"]).SVC(
+                  probability=True, random_state=0), clus=KMeans(n_clusters=3, n_init=1, random_state=1))],
              clf_data, clf3, methods=["predict", "predict_proba", "decision_function"],
              rowwise=["predict", "predict_proba", "decision_function"],
              alts={"c_init": [lambda: "random"], "c_algorithm": [lambda: "lloyd"], "c_random_state": [lambda: 3],
